@@ -718,15 +718,17 @@ def TensorProd(
 
     useFeArray = isinstance(A, FeArray) or isinstance(B, FeArray)
 
+    # tensor rank of each operand: a plain array next to a field is a constant tensor
+    ndim1 = A._ndim if isinstance(A, FeArray) else A.ndim
+    ndim2 = B._ndim if isinstance(B, FeArray) else B.ndim
+
     if ndim is None:
-        ndim = A._ndim if useFeArray else A.ndim
+        ndim = ndim1
 
     assert ndim in [1, 2], "A and B must be vectors (i) or matrices (ij)"
 
     error = "A and B must have the same dimensions"
     if useFeArray:
-        ndim1 = A._ndim if useFeArray else A.ndim
-        ndim2 = B._ndim if useFeArray else B.ndim
         assert ndim1 == ndim2, error
     else:
         assert A.size == B.size, error
